@@ -109,6 +109,11 @@ TsClauses(s, ev) ==
 
 ObsClauses(s0, s, ev) == EpClauses(s, ev) \cup NbClauses(s, ev) \cup OccClauses(s0, s, ev) \cup TsClauses(s, ev)
 
+\* the shadow continues from the kernel's table as it was OBSERVED (so that NeverStuck / Woken below are evaluated on the
+\* observed registration, not on the predicted one; a difference was reported as Mismatch_epoll)
+ObsEp(o) == [reg |-> o[1] = 1, int |-> (IF o[2] = 1 THEN {"r"} ELSE {}) \cup (IF o[3] = 1 THEN {"w"} ELSE {}), armed |-> o[5] = 1]
+WithObsEp(s, ev) == [s EXCEPT !.ep = [f \in Fds |-> IF f \in Ends THEN ObsEp(ev.ep[f]) ELSE @[f]]]
+
 \* NeverStuck / Woken on the shadow state (which follows the observations)
 StuckClauses(s) == IF StuckTasks(s) # {} THEN {"task_stuck"} ELSE {}
 QuiescentClauses(s) ==
@@ -275,20 +280,21 @@ StepExecEnd(s0, ev, ln) ==
 StepDispd(s0, ev, ln) ==
   LET pre  == s0.st
       pred == [pre EXCEPT !.pc = "idle", !.batch = <<>>]
-  IN Add([s0 EXCEPT !.st = pred], ln,
+      obs  == WithObsEp(pred, ev)
+  IN Add([s0 EXCEPT !.st = obs], ln,
          (IF pre.pc = "exec" \/ pre.batch # <<>> THEN {"Mismatch_batch_left"} ELSE {})
          \cup (IF ev.r # "ok" THEN {"dispatch_failed"} ELSE {})
-         \cup ObsClauses(s0, pred, ev) \cup StuckClauses(pred), {})
+         \cup ObsClauses(s0, pred, ev) \cup StuckClauses(obs), {})
 
 StepEnd(s0, ev, ln) ==
-  LET s == s0.st
+  LET s == WithObsEp(s0.st, ev)
       cs == UNION {
               (IF ~IsPrefix(ev.rcvd[e], ev.sent[e]) \/ \E i \in DOMAIN ev.rcvd[e] : ev.rcvd[e][i] = -1 THEN {"bytes_differ"} ELSE {})
               \cup (IF ev.brcvd[e] = ev.bsent[e] /\ ev.hrcvd[e] # ev.hsent[e] THEN {"digest_differs"} ELSE {})
               \cup (IF ev.brcvd[e] > ev.bsent[e] THEN {"bytes_differ"} ELSE {})
               \cup (IF ev.sent[e] # s.sent[e] \/ ev.rcvd[e] # s.rcvd[e] THEN {"Mismatch_data"} ELSE {})
               : e \in Ends}
-            \cup ObsClauses(s0, s, ev)
+            \cup ObsClauses(s0, s0.st, ev)
             \cup StuckClauses(s)
             \cup (IF Quiescent(s) THEN QuiescentClauses(s) ELSE {"never_quiescent"})
   IN Add(s0, ln, cs, {})
